@@ -2948,8 +2948,12 @@ pub fn gen_cases(topic: &str, seed: u64, n: usize, path: &str) -> Result<(), Str
                     }
                 }
                 let tps: Vec<J> = (0..docs.len().min(2)).map(|i| json!({"d":i})).collect();
-                json!({"topic":"ser","oracle":true,"wt":true,"src":src,"docs":docs,"tps":tps,"tns":[],
-                       "plan":{"tri":false,"scope":"sw","sws":[[], [true,true,true,true]],"ser":true,"via_value":true}})
+                {
+                    // one case in ten: the TEXT repeats its first identifier key (see run.rs, `dupid`)
+                    let dup = g.r.chance(1, 10);
+                    json!({"topic":"ser","oracle":true,"wt":!dup,"dupid":dup,"src":src,"docs":docs,"tps":tps,"tns":[],
+                           "plan":{"tri":false,"scope":"sw","sws":[[], [true,true,true,true]],"ser":true,"via_value":!dup}})
+                }
             }
             // C11: every representation of the same logical document
             // a FLAT-TABLE document: rules whose keys are dotted paths to scalar leaves (no nested
